@@ -176,7 +176,7 @@ class _Norm:
         for _round in range(6):
             step = False
             for t in (self.foreign_constants, self.class_constants, self.constant_tables, self.spread_stars, self.unbound_method_calls, self.local_tables, self.generator_calls, self.quantifiers_over_displays,
-                      self.helpers_in_comprehensions, self.lazy_streams, self.fuse_comprehensions, self.dict_forms, self.list_building):
+                      self.helpers_in_comprehensions, self.percent_templates, self.generator_streams, self.pop_then_append, self.lazy_streams, self.fuse_comprehensions, self.dict_forms, self.list_building):
                 got = t()
                 if DEBUG and got:
                     print(f"[c10_util] {self.raw.qn}: {t.__name__}")
@@ -916,6 +916,194 @@ class _Norm:
         Outer().visit(self.fn)
         return changed[0]
 
+    # -------------------------------------------------------------- "template %s" % value  ->  f"template {value!s}"
+    def percent_templates(self) -> bool:
+        """a literal template with `%s` conversions only (and `%%`), applied to a tuple display or to one value that cannot be a tuple
+        (a call of str / join / serialize .., a string literal, an f-string), is the f-string with `!s` conversions"""
+        local = self._local()
+        changed = [False]
+        STR_METHODS = ("join", "format", "lower", "upper", "strip", "serialize", "replace", "title")
+        STR_FUNCS = ("str", "repr", "len", "int", "float")
+
+        def not_a_tuple(e: ast.AST) -> bool:
+            if isinstance(e, ast.JoinedStr) or (isinstance(e, ast.Constant) and not isinstance(e.value, tuple)):
+                return True
+            if isinstance(e, ast.Call):
+                if isinstance(e.func, ast.Attribute) and e.func.attr in STR_METHODS:
+                    return True
+                return isinstance(e.func, ast.Name) and e.func.id in STR_FUNCS and e.func.id not in local
+            return False
+
+        def surely_str(e: ast.AST) -> bool:
+            if isinstance(e, ast.JoinedStr) or (isinstance(e, ast.Constant) and isinstance(e.value, str)):
+                return True
+            if isinstance(e, ast.Call):
+                if isinstance(e.func, ast.Attribute) and e.func.attr in ("join", "format", "lower", "upper", "strip", "title"):
+                    return True
+                return isinstance(e.func, ast.Name) and e.func.id in ("str", "repr") and e.func.id not in local
+            return False
+
+        class T(ast.NodeTransformer):
+            def visit_BinOp(self, n):
+                self.generic_visit(n)
+                if not (isinstance(n.op, ast.Mod) and isinstance(n.left, ast.Constant) and isinstance(n.left.value, str)):
+                    return n
+                tpl = n.left.value
+                parts: List[str] = [""]
+                i = 0
+                while i < len(tpl):
+                    if tpl[i] == "%":
+                        nxt = tpl[i + 1] if i + 1 < len(tpl) else ""
+                        if nxt == "%":
+                            parts[-1] += "%"
+                        elif nxt == "s":
+                            parts.append("")
+                        else:
+                            return n
+                        i += 2
+                    else:
+                        parts[-1] += tpl[i]
+                        i += 1
+                if isinstance(n.right, ast.Tuple) and not any(isinstance(x, ast.Starred) for x in n.right.elts):
+                    args = list(n.right.elts)
+                elif not_a_tuple(n.right):
+                    args = [n.right]
+                else:
+                    return n
+                if len(args) != len(parts) - 1:
+                    return n
+                vals: List[ast.AST] = []
+                for k, lit in enumerate(parts):
+                    if lit:
+                        vals.append(ast.Constant(value=lit))
+                    if k < len(args):
+                        # str(x) of a value that is a string already is the value: no conversion needed then
+                        vals.append(ast.FormattedValue(value=args[k], conversion=-1 if surely_str(args[k]) else 115, format_spec=None))
+                changed[0] = True
+                return _fix(ast.copy_location(ast.JoinedStr(values=vals), n), n)
+
+        T().visit(self.fn)
+        return changed[0]
+
+    # -------------------------------------------------------------- generator helpers handed on as a stream; last = X.pop(); X.append(E(last))
+    def _is_generator_call(self, v: ast.AST) -> bool:
+        if not isinstance(v, ast.Call):
+            return False
+        for ctx in self.ctxs:
+            try:
+                res = _resolve_generator(self.repo, ctx, v)
+            except Exception:
+                res = None
+            if res is not None:
+                return res[0].qn not in self.stack
+            if not isinstance(v.func, ast.Name):
+                break
+        return False
+
+    def generator_streams(self) -> bool:
+        """`s = self._gen(a)` (a private generator helper; s bound once, read once, nothing it reads is rebound) is written where it is
+        read -- generators are lazy, the body runs at the use; `X.extend(self._gen(a))` / `X += self._gen(a)` is
+        `for v in self._gen(a): X.append(v)` (the loop is then opened by the flattener's generator expansion)"""
+        fn = self.fn
+        changed = False
+        for _ in range(8):
+            hit = None
+            for owner in ast.walk(fn):
+                for fld in ("body", "orelse", "finalbody"):
+                    blk = getattr(owner, fld, None)
+                    if not (isinstance(blk, list) and blk and isinstance(blk[0], ast.stmt)):
+                        continue
+                    for st in blk:
+                        tgt = None
+                        if isinstance(st, ast.Assign) and len(st.targets) == 1 and isinstance(st.targets[0], ast.Name):
+                            tgt = st.targets[0].id
+                        elif isinstance(st, ast.AnnAssign) and isinstance(st.target, ast.Name) and st.value is not None:
+                            tgt = st.target.id
+                        if tgt is None or not self._is_generator_call(st.value):
+                            continue
+                        if _stores(fn, tgt) == 1 and _uses(fn, tgt) == 1 and not _uses(st.value, tgt) and \
+                                not any(_stores(fn, x.id) > 1 for x in ast.walk(st.value) if isinstance(x, ast.Name) and isinstance(x.ctx, ast.Load)):
+                            hit = (blk, st, tgt)
+                            break
+                    if hit:
+                        break
+                if hit:
+                    break
+            if not hit:
+                break
+            blk, st, nm = hit
+            blk.remove(st)
+            if not blk:
+                blk.append(ast.copy_location(ast.Pass(), st))
+            for n in ast.walk(fn):
+                for f_, v in ast.iter_fields(n):
+                    if isinstance(v, ast.Name) and v.id == nm and isinstance(v.ctx, ast.Load):
+                        setattr(n, f_, st.value)
+                    elif isinstance(v, list):
+                        for i, x in enumerate(v):
+                            if isinstance(x, ast.Name) and x.id == nm and isinstance(x.ctx, ast.Load):
+                                v[i] = st.value
+            changed = True
+        norm = self
+        did = [False]
+
+        def rewrite(stmts: List[ast.stmt]) -> List[ast.stmt]:
+            out: List[ast.stmt] = []
+            for s_ in stmts:
+                recv = gen = None
+                if isinstance(s_, ast.Expr) and isinstance(s_.value, ast.Call) and isinstance(s_.value.func, ast.Attribute) and s_.value.func.attr == "extend" \
+                        and isinstance(s_.value.func.value, ast.Name) and len(s_.value.args) == 1 and not s_.value.keywords:
+                    recv, gen = s_.value.func.value.id, s_.value.args[0]
+                elif isinstance(s_, ast.AugAssign) and isinstance(s_.op, ast.Add) and isinstance(s_.target, ast.Name):
+                    recv, gen = s_.target.id, s_.value
+                if recv is not None and norm._is_generator_call(gen) and not _uses(gen, recv):
+                    var = f"line__e{next(_counter)}"
+                    body = [ast.Expr(value=ast.Call(func=ast.Attribute(value=ast.Name(id=recv, ctx=ast.Load()), attr="append", ctx=ast.Load()),
+                                                    args=[ast.Name(id=var, ctx=ast.Load())], keywords=[]))]
+                    loop = ast.For(target=ast.Name(id=var, ctx=ast.Store()), iter=gen, body=body, orelse=[], lineno=s_.lineno)
+                    out.append(_fix(ast.copy_location(loop, s_), s_))
+                    did[0] = True
+                else:
+                    out.append(s_)
+            return out
+
+        _map_blocks(fn, rewrite)
+        return changed or did[0]
+
+    def pop_then_append(self) -> bool:
+        """`last = X.pop()` directly followed by `X.append(E(last))`, `last` read nowhere else  ->  `X[-1] = E(X[-1])`
+        (both forms raise IndexError on an empty list)"""
+        fn = self.fn
+        did = [False]
+
+        def rewrite(stmts: List[ast.stmt]) -> List[ast.stmt]:
+            out: List[ast.stmt] = []
+            i = 0
+            while i < len(stmts):
+                a = stmts[i]
+                b = stmts[i + 1] if i + 1 < len(stmts) else None
+                ok = False
+                if isinstance(a, ast.Assign) and len(a.targets) == 1 and isinstance(a.targets[0], ast.Name) and isinstance(a.value, ast.Call) \
+                        and isinstance(a.value.func, ast.Attribute) and a.value.func.attr == "pop" and not a.value.args and not a.value.keywords \
+                        and isinstance(a.value.func.value, ast.Name) and isinstance(b, ast.Expr) and isinstance(b.value, ast.Call) \
+                        and isinstance(b.value.func, ast.Attribute) and b.value.func.attr == "append" and isinstance(b.value.func.value, ast.Name) \
+                        and b.value.func.value.id == a.value.func.value.id and len(b.value.args) == 1 and not b.value.keywords:
+                    nm, lst = a.targets[0].id, a.value.func.value.id
+                    if nm != lst and _stores(fn, nm) == 1 and _uses(fn, nm) == _uses(b.value.args[0], nm) >= 1 and not _uses(b.value.args[0], lst):
+                        last = lambda ctx: ast.Subscript(value=ast.Name(id=lst, ctx=ast.Load()), slice=ast.UnaryOp(op=ast.USub(), operand=ast.Constant(value=1)), ctx=ctx)
+                        new = ast.Assign(targets=[last(ast.Store())], value=_subst(b.value.args[0], {nm: last(ast.Load())}), lineno=a.lineno)
+                        out.append(_fix(ast.copy_location(new, a), a))
+                        did[0] = True
+                        ok = True
+                        i += 2
+                if not ok:
+                    out.append(a)
+                    i += 1
+            return out
+
+        _map_blocks(fn, rewrite)
+        return did[0]
+
     # -------------------------------------------------------------- lazy streams: g = (E for ..) used once; zip of maps over one sequence
     def lazy_streams(self) -> bool:
         fn = self.fn
@@ -1249,8 +1437,16 @@ class _Norm:
             for expr, nm in ((first_expr, first_name), (last_expr, last_name)):
                 if expr is not None and (_uses(self.fn, nm) != _uses(expr, nm) or any(_uses(expr, o) for o in names if o != nm)):
                     return None
-            if not _is_pure(st.value) or isinstance(st.value, ast.Constant):
+            if isinstance(st.value, ast.Constant):
                 return None
+            if not _is_pure(st.value):
+                # the source is a list built in place: it is bound to a name of its own first (the unpacked names are read nowhere but in
+                # the display, so the unpacking statement itself becomes that binding)
+                if not self._is_list_expr(st.value):
+                    return None
+                tmp = f"__src__l{next(_counter)}"
+                st.targets = [ast.copy_location(ast.Name(id=tmp, ctx=ast.Store()), st.targets[0])]
+                return ast.copy_location(ast.Name(id=tmp, ctx=ast.Load()), st.value), first_expr, first_name, last_expr, last_name
             return st.value, first_expr, first_name, last_expr, last_name
         return None
 
@@ -1413,7 +1609,44 @@ def _derived(flat: FuncInfo, fn: ast.FunctionDef, raw: FuncInfo) -> FuncInfo:
     return out
 
 
+def _tail_delegates(repo: Repo, raw: FuncInfo) -> Set[str]:
+    """public MODULE-LEVEL functions of the repository whose result is what `raw` returns (`return build(..)`, also through one local
+    name): what the function returns is made there, so they are analysed in place like private helpers, whatever their name"""
+    out: Set[str] = set()
+
+    def callee(v: ast.AST) -> Optional[str]:
+        if isinstance(v, ast.Call) and isinstance(v.func, ast.Name) and not _is_private(v.func.id):
+            try:
+                r = repo.lookup(raw.mod.name, v.func.id)
+            except Exception:
+                r = None
+            if r and r[0] == "func":
+                fi = repo.funcs.get(f"{repo.mods[r[2]].short}::{v.func.id}")
+                if fi is not None and not fi.cls and fi.qn != raw.qn:
+                    return v.func.id
+        return None
+
+    nodes = [n for n in _walk_scope(raw.node)]
+    for n in nodes:
+        if isinstance(n, ast.Return) and n.value is not None:
+            c = callee(n.value)
+            if c:
+                out.add(c)
+            elif isinstance(n.value, ast.Name):
+                defs = [m for m in nodes if isinstance(m, ast.Assign) and len(m.targets) == 1 and isinstance(m.targets[0], ast.Name) and m.targets[0].id == n.value.id]
+                if len(defs) == 1 and _stores(raw.node, n.value.id) == 1:
+                    c = callee(defs[0].value)
+                    if c:
+                        out.add(c)
+    return out
+
+
 def deep_of(repo: Repo, raw: FuncInfo, also=None) -> FuncInfo:
+    if also is None:
+        try:
+            also = _tail_delegates(repo, raw) or None
+        except (KeyError, AttributeError, TypeError, ValueError, IndexError):
+            also = None
     key = (id(repo), raw.qn, id(raw.node), tuple(sorted(also or ())))
     if key in _cache:
         return _cache[key]
@@ -2129,3 +2362,42 @@ def unbound_names(f: FuncInfo, p, g, expr: ast.AST, seen: Set[int]) -> List[str]
             if defs and not any(d in seen for d in defs) and g.entry not in defs:
                 out.append(x.id)
     return out
+
+
+def _identity(paths) -> Set[tuple]:
+    """the paths that say which object a value is (no content flows)"""
+    return {x for x in paths if not any(st.startswith("in:") for st in x)}
+
+
+def stored_into_member(f: FuncInfo, p, g, container: ast.AST, is_value) -> bool:
+    """is a value selected by `is_value(paths)` put into a MEMBER of the container through a local name for the member:
+    `group = C[k]` / `C.setdefault(k, set())` / `C.get(k)` .. `group.add(v)`  (C the container expression or an alias of it)"""
+    ident = _identity(safe_trace(p, container))
+    if not ident:
+        return False
+    names = L.aliases(f, {container.id}) if isinstance(container, ast.Name) else None
+    for n in ast.walk(f.node):
+        if not (isinstance(n, ast.Call) and isinstance(n.func, ast.Attribute) and n.func.attr in STORING_METHODS and isinstance(n.func.value, ast.Name)):
+            continue
+        if not any(is_value(safe_trace(p, v)) for v in n.args):
+            continue
+        at = g.node_containing(n)
+        if at is None:
+            continue
+        for d in p.rd.defs_reaching(at, n.func.value.id):
+            st = g.stmt[d]
+            if not (isinstance(st, (ast.Assign, ast.AnnAssign)) and st.value is not None):
+                continue
+            v = st.value
+            owner = None
+            if isinstance(v, ast.Subscript) and not isinstance(v.slice, ast.Slice):
+                owner = v.value
+            elif isinstance(v, ast.Call) and isinstance(v.func, ast.Attribute) and v.func.attr in ("setdefault", "get", "__getitem__"):
+                owner = v.func.value
+            if owner is None:
+                continue
+            if names is not None and isinstance(owner, ast.Name) and owner.id not in names and container.id not in L.aliases(f, {owner.id}):
+                continue
+            if _identity(safe_trace(p, owner)) & ident:
+                return True
+    return False
